@@ -310,6 +310,17 @@ func (rt *RT) Gc() {
 	_ = rt.Store.Gc()
 }
 
+// Mark calls Metric.ExpireDatum on the m-th metric of prog's running vm (what
+// the vm's expire instruction does for `del ... after`); errors are ignored, as
+// in the model (no running version, no such metric, no such label values).
+func (rt *RT) Mark(prog string, m int, labels []string, exp int64) {
+	for _, h := range rt.R.VerifHandles() {
+		if h.Name == prog && m < len(h.VM.Metrics) {
+			_ = h.VM.Metrics[m].ExpireDatum(time.Duration(exp), labels...)
+		}
+	}
+}
+
 func (rt *RT) Close() {
 	close(rt.lines)
 	rt.wg.Wait()
